@@ -30,8 +30,19 @@ Norm(acc, rest) ==
    ELSE IF Head(rest) = ".." THEN Norm(IF acc = <<>> THEN <<>> ELSE SubSeq(acc, 1, Len(acc) - 1), Tail(rest))
    ELSE Norm(Append(acc, Head(rest)), Tail(rest))
 
+(* absolute forms: "<T>" stands for the directory that holds the universe; a ref whose first   *)
+(* segment is "<T>" (absolute file path) or "file://<T>" (file URL) designates a file of the    *)
+(* universe; any other first segment containing a scheme or host ("http://h", "//h") is a       *)
+(* location outside it.                                                                         *)
+LocalAbs == {"<T>", "file://<T>"}
+RemoteAbs == {"http://h.example", "https://h.example", "//h.example"}
+IsRemote(f) == f # <<>> /\ f[1] \in RemoteAbs
+
 (* the file a ref found in file f points into *)
-TargetFile(f, r) == IF r.path = <<>> THEN f ELSE Norm(<<>>, Dir(f) \o r.path)
+TargetFile(f, r) == IF r.path = <<>> THEN f
+                    ELSE IF r.path[1] \in LocalAbs THEN Norm(<<>>, Tail(r.path))
+                    ELSE IF r.path[1] \in RemoteAbs THEN <<r.path[1]>> \o Norm(<<>>, Tail(r.path))
+                    ELSE Norm(<<>>, Dir(f) \o r.path)
 
 IsConcrete(c) == "id" \in DOMAIN c
 
